@@ -1,7 +1,6 @@
 """unit seqchk — check path of Seq2..Seq12 (sequence.rs `seq!`, from rustc's macro expansion).
 C07 (implicit skip SKIP times before every element but the first, none before the first / after the last),
-C01/C03 (sequence = PEG concatenation with skips).  The parse path uses core::array::from_fn with an FnMut
-closure capturing `&mut input` / `&mut stack`, which Verus rejects: it is a Kani-bounded stand-in (k_peg)."""
+C01/C03 (sequence = PEG concatenation with skips).  The parse path (core::array::from_fn with an FnMut closure) is unit seqpar (rewrite R9)."""
 import _prelude as P
 
 VERUS_FLAGS = ['--no-lifetime']
